@@ -340,6 +340,64 @@ impl WorldB {
                     self.deliver_to_server(ix, y, true, obs);
                 }
             }
+            K_FORGEEXPIRY => {
+                // a token holder whose token runs out rewrites the clear-text expiry field of its own connection request (the
+                // sealed part stays as issued). While the token is still valid and expires within six seconds it first presents
+                // the genuine request (the server opens and remembers whatever it remembers about it), waits until the token
+                // has expired, then presents the forgery from the same address and answers the challenge if there is one.
+                let connected = self.server.clients_id();
+                let cands: Vec<usize> = (0..self.tokens.len())
+                    .filter(|&i| {
+                        let t = &self.tokens[i];
+                        t.adv_owned && t.key_ok && t.protocol_ok && t.lists_server && !connected.contains(&t.id) && t.issued_for_incarnation == self.incarnation
+                    })
+                    .collect();
+                if cands.is_empty() {
+                    return;
+                }
+                let tid = cands[op.a as usize % cands.len()];
+                let src = self.tokens[tid].first_addr.unwrap_or(self.adv_addr);
+                if self.sessions.values().any(|s| s.addr == src) || self.slot_of_addr(src).is_some() {
+                    return;
+                }
+                let dst = self.public[0];
+                let mut buf = [0u8; 1400];
+                let left_ms = (self.tokens[tid].expire_ts * 1000).saturating_sub(self.sv_ms);
+                if left_ms > 6000 {
+                    return;
+                }
+                obs.count("fault.forge_expiry");
+                if left_ms > 0 {
+                    let pkt = Packet::connection_request_from_token(&self.tokens[tid].token);
+                    let Ok(n) = pkt.encode(&mut buf, self.tokens[tid].token.protocol_id, None) else { return };
+                    let ix = self.adv_record(buf[..n].to_vec(), src, dst, Some(tid), false, obs);
+                    self.deliver_to_server(ix, src, true, obs);
+                    self.tick_server(left_ms + 1000, false, obs);
+                    if self.server.clients_id().contains(&self.tokens[tid].id) {
+                        return;
+                    }
+                }
+                obs.count("probe.expired_token_with_forged_expiry_presented");
+                let mut forged = self.tokens[tid].token.clone();
+                forged.expire_timestamp = self.sv_ms / 1000 + 1 + op.c % 100_000;
+                let pkt = Packet::connection_request_from_token(&forged);
+                let Ok(n) = pkt.encode(&mut buf, forged.protocol_id, None) else { return };
+                let ix = self.adv_record(buf[..n].to_vec(), src, dst, Some(tid), true, obs);
+                let seen_before = self.challenges_seen.len();
+                self.deliver_to_server(ix, src, true, obs);
+                if self.challenges_seen.len() > seen_before {
+                    obs.count("probe.forged_expiry_was_challenged");
+                    let (tseq, tdata, cid, cinc) = self.challenges_seen.last().cloned().unwrap();
+                    let mut td = [0u8; 300];
+                    td.copy_from_slice(&tdata);
+                    let pkt = Packet::Response { token_sequence: tseq, token_data: td };
+                    let ckey = self.tokens[tid].token.client_to_server_key;
+                    let Ok(n) = pkt.encode(&mut buf, self.tokens[tid].token.protocol_id, Some((1, &ckey))) else { return };
+                    let ix = self.adv_record(buf[..n].to_vec(), src, dst, Some(tid), false, obs);
+                    self.ledger[ix].challenge_for = Some((cid, cinc));
+                    self.deliver_to_server(ix, src, true, obs);
+                }
+            }
             K_STALEHS => {
                 // a handshake reply the server once sealed for this client's token (a challenge, a denial from a moment when
                 // the server was full) reaches the client late, when it may long be connected
